@@ -152,3 +152,11 @@ def _sdf_callbacks_src():
     from translate import gen_sdf_callbacks
     from vcheck import core
     return gen_sdf_callbacks.generate(os.path.join(core.REPO, 'src', 'kyupy', 'sdf.py'))
+
+
+@register('LogicSimDriversSrc')
+def _logicsim_drivers_src():
+    import os
+    from translate import gen_logicsim_drivers
+    from vcheck import core
+    return gen_logicsim_drivers.generate(os.path.join(core.REPO, 'src', 'kyupy', 'logic_sim.py'))
